@@ -176,8 +176,10 @@ func (p *PIDZero) startStateMonitor() {
 				defer stateWg.Done()
 				stateChan := s.GetStateChan(p.ctx)
 
-				// Read the first state and discard it - it's the initial state
-				// that we've already captured and stored manually in startRunnable
+				// Read the first state - normally the initial state that we've already
+				// captured and stored manually in startRunnable - and discard it. If this
+				// goroutine got to subscribe only after the runnable had moved on, the
+				// first value is newer than the stored one and nothing else will report it.
 				select {
 				case <-p.ctx.Done():
 					return
@@ -185,8 +187,15 @@ func (p *PIDZero) startStateMonitor() {
 					if !ok {
 						return
 					}
-					// First state discarded to avoid duplicate broadcast
-					p.logger.Debug("Discarded initial state", "runnable", r, "state", state)
+					if stored, loaded := p.stateMap.Load(r); loaded && stored.(string) != state {
+						p.logger.Debug("Initial state differs from stored state", "runnable", r,
+							"stored", stored, "state", state)
+						p.stateMap.Store(r, state)
+						p.broadcastState()
+					} else {
+						// First state discarded to avoid duplicate broadcast
+						p.logger.Debug("Discarded initial state", "runnable", r, "state", state)
+					}
 				}
 
 				// Keep track of the last state to avoid duplicate broadcasts
